@@ -144,6 +144,10 @@ func (m *Variant) Decode(b []byte) (int, error) {
 	if n > MaxVariantArrayLength {
 		return buf.Pos(), StatusBadEncodingLimitsExceeded
 	}
+	// -1 is the null array, every other negative length is malformed
+	if n < -1 {
+		return buf.Pos(), StatusBadEncodingLimitsExceeded
+	}
 
 	// get the type for the slice
 	sliceType := reflect.SliceOf(typ)
